@@ -1,43 +1,34 @@
 #include <kits/poolsim_main.h>
 #include <chrono>
 #include <sys/resource.h>
-static long flt(){ rusage u; getrusage(RUSAGE_SELF,&u); return u.ru_minflt; }
 using namespace ps;
 static double now() { return std::chrono::duration<double>(std::chrono::steady_clock::now().time_since_epoch()).count(); }
-static double cpu() { timespec t; clock_gettime(CLOCK_PROCESS_CPUTIME_ID,&t); return t.tv_sec+t.tv_nsec*1e-9; }
+static double tv(timeval t){ return t.tv_sec + t.tv_usec*1e-6; }
+struct R { double su, ss, cu, cs; long sf, cf; };
+static R ru(){ rusage a,b; getrusage(RUSAGE_SELF,&a); getrusage(RUSAGE_CHILDREN,&b); return {tv(a.ru_utime),tv(a.ru_stime),tv(b.ru_utime),tv(b.ru_stime),a.ru_minflt,b.ru_minflt}; }
 int main(int argc, char** argv) {
     vx::init(argc, argv, "CXX", "model_checking");
     vx::scratch_dir();
-    Opts o; o.classes = {"N","M","I"};
-    auto no=MakeNodeOpts(o); if(getenv("MINCACHE")) no.min_validation_cache=true; ck::Node node(no);
+    Opts o; o.classes = {"N","M","I","C","R","P"};
+    ck::Node node(MakeNodeOpts(o));
     Sim sim(node, o); sim.Init();
-    { std::ifstream f("/proc/self/status"); std::string l; while(std::getline(f,l)) if(l.rfind("VmRSS",0)==0||l.rfind("VmSize",0)==0||l.rfind("VmPTE",0)==0) printf("%s\n",l.c_str()); }
     sim.fs.sh = new vx::ForkShared(); sim.fs.log_fd = 1;
-    { double a=now(); for(int i=0;i<100;i++) sim.Take(); double b=now(); for(int i=0;i<20;i++) sim.Events(); double c=now();
-      Snap s0=sim.Take(); for(int i=0;i<100;i++) sim.FreeCoins(s0); double d=now(); for(int i=0;i<100;i++) sim.Build("N:2:m", s0); double e=now();
-      for(int i=0;i<1000;i++) node.GetCoin(sim.coins[i%20].op); double f=now();
-      for(int i=0;i<1000;i++) sim.pool().isSpent(sim.coins[i%20].op); double g=now();
-      for(int i=0;i<100;i++) sim.pool().infoAll(); double h=now();
-      for(int i=0;i<100;i++) sim.pool().GetPrioritisedTransactions(); double i2=now();
-      for(int i=0;i<100;i++) sim.pool().DynamicMemoryUsage(); double j=now();
-      for(int i=0;i<100;i++) node.tip(); double k=now();
-      printf("parent: Take %.3fms Events %.3fms FreeCoins %.3f Build %.3f GetCoin %.4f isSpent %.4f infoAll %.4f prio %.4f usage %.4f tip %.4f\n",(b-a)*10,(c-b)*50,(d-c)*10,(e-d)*10,(f-e),(g-f),(h-g)*10,(i2-h)*10,(j-i2)*10,(k-j)*10); }
-    for (int rep = 0; rep < 3; rep++) {
-    double t0 = now();
-    pid_t p = fork();
-    if (p == 0) {
-        double a = now(); double c0=cpu(); long f0=flt();
-        Snap s = sim.Take(); double b = now(); long f1=flt();
-        auto ev = sim.Events(); double c = now(); long f2=flt();
-        sim.Apply("N:2:m"); double d = now(); long f3=flt(); printf("faults: take %ld events %ld applyN %ld\n", f1-f0,f2-f1,f3-f2);
-        uint64_t k = sim.Key(); double e = now();
-        sim.Apply("M:a"); double f = now();
-        sim.Apply("I"); double g = now();
-        printf("child: fork->start %.1fms take %.1f events %.1f applyN %.1f key %.1f applyM %.1f applyI %.1f\n", (a-t0)*1e3, (b-a)*1e3, (c-b)*1e3, (d-c)*1e3, (e-d)*1e3, (f-e)*1e3, (g-f)*1e3);
-        printf("child cpu total %.1fms faults %ld\n",(cpu()-c0)*1e3, flt()-f0); fflush(stdout); _exit(0);
+    sim.Apply("N:2:h"); sim.Apply("C:0:0:2:h");
+    int mode = argc > 1 ? atoi(argv[1]) : 0;
+    const int N = 40;
+    R r0 = ru(); double t0 = now();
+    for (int i = 0; i < N; i++) {
+        pid_t p = fork();
+        if (p == 0) {
+            if (mode >= 1) sim.Apply("N:2:h");
+            if (mode >= 2) sim.Key();
+            if (mode >= 3) sim.Events();
+            _exit(0);
+        }
+        int st; waitpid(p, &st, 0);
     }
-    int st; waitpid(p, &st, 0);
-    printf("parent: total %.1fms\n", (now()-t0)*1e3);
-    }
+    R r1 = ru(); double t1 = now();
+    printf("mode %d: per fork wall %.1fms | parent user %.1f sys %.1f faults %.0f | child user %.1f sys %.1f faults %.0f\n", mode, (t1-t0)/N*1e3,
+        (r1.su-r0.su)/N*1e3, (r1.ss-r0.ss)/N*1e3, (double)(r1.sf-r0.sf)/N, (r1.cu-r0.cu)/N*1e3, (r1.cs-r0.cs)/N*1e3, (double)(r1.cf-r0.cf)/N);
     return 0;
 }
